@@ -206,7 +206,8 @@ func (r *Runner) expandErr(err error) {
 	_, unsetParam := errors.AsType[expand.UnsetParameterError](err)
 	switch {
 	case unsetParam:
-	case errMsg == "invalid indirect expansion":
+	case errMsg == "invalid indirect expansion",
+		strings.HasSuffix(errMsg, ": substring expression < 0"):
 		// TODO: These errors are treated as fatal by bash.
 		// Make the error type reflect that.
 	default:
